@@ -234,6 +234,19 @@ def step (d : D) (op impl : String) : D × DrvOut :=
       let d := { d with st := (if d.gated then gwrite else write) d.cfg d.st x }
       (d, { model := fmtFiles ((allFiles d).map (·.2)), spec := diskSpec d impl })
     | _, _, _, _ => (d, { model := "bad-op" })
+  | ["wf", n, t, dts, ntp, fl, id] =>
+    match n.toNat?, t.toNat?, dts.toNat?, ntp.toInt?, id.toNat? with
+    | some n, some t, some dts, some ntp, some id =>
+      let x : In := ⟨t, dts, epochNs + ntp * 1000000, fl == "n", id⟩
+      let d := { d with st := writeFault (if d.gated then gwrite else write) d.cfg d.st x n }
+      let m := fmtFiles ((allFiles d).map (·.2))
+      -- the statement: header + complete parts + at most ONE incomplete tail (what the failed write left), no part twice
+      let tornOf (s : String) : List String := ((s.splitOn " torn=").drop 1).map fun t => (t.takeWhile Char.isDigit).toString
+      let sp := if tornOf impl != tornOf m then
+          s!"FAIL after a failed part write the file does not end with exactly the bytes the failed write left: torn tails on disk {tornOf impl}, expected {tornOf m} (the failed part was written again?)"
+        else diskSpec d impl
+      (d, { model := m, spec := sp })
+    | _, _, _, _, _ => (d, { model := "bad-op" })
   | ["close"] =>
     let d := { d with st := close d.st }
     (d, { model := fmtFiles ((allFiles d).map (·.2)), spec := diskSpec d impl })
@@ -278,10 +291,10 @@ def step (d : D) (op impl : String) : D × DrvOut :=
             let ps := parseParts b (b.length + 1) h.hlen
             let total := ps.foldl (fun a p => a + p.moofLen + p.mdatLen) h.hlen
             let tracks : List C28.Track := d.cfg.tracks.zipIdx.map fun (t, i) => ⟨i + 1, t.rate⟩
-            let got := fmtParsed h ps
+            let got := fmtParsed h ps ++ (if b.length > total then s!" torn={b.length - total}" else "")
             let want := fmtFile fm
             let spec :=
-              if total != b.length then
+              if total + fm.torn != b.length then
                 s!"FAIL recorded file is not header ++ complete moof/mdat pairs: {total} of {b.length} bytes parsed"
               else if h.sid != sid then "FAIL stream id in the header differs from the instance's"
               else if got != want then s!"FAIL bytes on disk differ from the writer model: disk {got} model {want}"
